@@ -464,32 +464,41 @@ Proof.
     exact (seq_dyn_correct TByte set_correct_byte eq_refl l vs Hwf Hvs).
 Qed.
 
+Lemma adapt_bytes : forall (spec : option bytes) (ok : bool) (run : option sval),
+    ((forall bs, spec = Some bs -> ok = true /\ run = Some (SB bs)) /\ (spec = None -> ok = false \/ run = None)) ->
+    (forall bs, spec = Some bs -> ok = true /\ exists c, run = Some c /\ c = SB bs) /\
+    (spec = None -> ok = false \/ run = None).
+Proof.
+  intros spec ok run [HS HN]. split; [|exact HN].
+  intros bs H. destruct (HS bs H) as [H1 H2]. split; [exact H1|]. exists (SB bs). split; [exact H2 | reflexivity].
+Qed.
+
 Lemma set_correct_address : set_correct TAddress.
 Proof.
   intros s v Hwf Hv. cbn [denote copyable] in Hv. rewrite guard_true in Hv.
   cbn [set_ok run_set copyable cell_ok]. rewrite guard_true. cbn [andb].
-  exact (bytes_static_case 32 (uncopy s) v (src_wf_uncopy s Hwf) Hv).
+  apply adapt_bytes. exact (bytes_static_case 32 (uncopy s) v (src_wf_uncopy s Hwf) Hv).
 Qed.
 
 Lemma set_correct_static_bytes : forall n, set_correct (TStaticBytes n).
 Proof.
   intros n s v Hwf Hv. cbn [denote copyable] in Hv. rewrite guard_true in Hv.
   cbn [set_ok run_set copyable cell_ok]. rewrite guard_true. cbn [andb].
-  exact (bytes_static_case n (uncopy s) v (src_wf_uncopy s Hwf) Hv).
+  apply adapt_bytes. exact (bytes_static_case n (uncopy s) v (src_wf_uncopy s Hwf) Hv).
 Qed.
 
 Lemma set_correct_string : set_correct TString.
 Proof.
   intros s v Hwf Hv. cbn [denote copyable] in Hv. rewrite guard_true in Hv.
   cbn [set_ok run_set copyable cell_ok]. rewrite guard_true. cbn [andb].
-  exact (bytes_dyn_case (uncopy s) v (src_wf_uncopy s Hwf) Hv).
+  apply adapt_bytes. exact (bytes_dyn_case (uncopy s) v (src_wf_uncopy s Hwf) Hv).
 Qed.
 
 Lemma set_correct_dyn_bytes : set_correct TDynBytes.
 Proof.
   intros s v Hwf Hv. cbn [denote copyable] in Hv. rewrite guard_true in Hv.
   cbn [set_ok run_set copyable cell_ok]. rewrite guard_true. cbn [andb].
-  exact (bytes_dyn_case (uncopy s) v (src_wf_uncopy s Hwf) Hv).
+  apply adapt_bytes. exact (bytes_dyn_case (uncopy s) v (src_wf_uncopy s Hwf) Hv).
 Qed.
 
 (* ------------------------------------------------------------------------------------------ *)
